@@ -32,7 +32,7 @@ PROPERTY = "C35"
 LEVEL = "other"
 BUDGET = {"quick": 300, "thorough": 1500}
 import os
-NOSKIP = bool(os.environ.get("VERIF_C35_NOSKIP"))      # development: also assert inside the reported defect regions
+NOSKIP = True      # the assertions also run inside the regions named by the model variables (two were repaired in /repo; keepdims_axes_moved is an open known finding excluded through known_findings.json)
 
 
 # ---------------------------------------------------------------- small helpers
